@@ -5,7 +5,7 @@
    only: slot s of row i of the buffer holds cell (i, s + shift(i-1)) of the specification matrix. *)
 From Coq Require Import ZArith Bool Lia List.
 From DV Require Import Prelude Cost Grid Dtw DtwSpec DtwProps Engines CWps CFill CExpand CFillSim CLang CDistTie CDistSpec
-  CTraceSpec Prune PyDistPrune CWpsCanon CWpsCanonEu CWpsKernel CWpsValue CWpsSpec CWpsSpecEu CExpW CWpsPrune CWpsSpecB CWpsSpecBEu CWpsValueB.
+  Traceback TracebackC CTrace CTraceSim CTraceSpec Prune PyDistPrune CWpsCanon CWpsCanonEu CWpsKernel CWpsValue CWpsSpec CWpsSpecEu CExpW CWpsPrune CWpsSpecB CWpsSpecBEu CWpsValueB.
 From DVGen Require Import Gen_cwps Gen_cfill Gen_cwpsk Gen_cexpw.
 Import ListNotations.
 Open Scope Z_scope.
@@ -177,6 +177,40 @@ Proof.
   intros i j Hi Hj Hb0 Hr0. destruct (HI i j Hi Hj) as [Hv _]. unfold P in Hv. rewrite Hv by (try assumption; lia).
   rewrite wps_matrix_Mfun; [reflexivity|unfold sr; lia|unfold sc; lia].
 Qed.
+(* the kernel, then the C traceback loop (CTraceSim.c_trace over the regenerated offsets) on the array it leaves: the path
+   traced from the slot of any finite cell costs exactly the value of that cell - no hypothesis about the array left *)
+Theorem c_kernel_then_trace ce0 shiftf ced1 ced2 wps0 psi_neg idist zp1e zp2e :
+  let W := cw_width l1 l2 window in
+  Z.of_nat (length wps0) = (l1 + 1) * W -> (idist =? 1) = false ->
+  exists wps',
+    c_dtw_warping_paths_ndim ce0 shiftf ced1 ced2 wps0 (concat s1) l1 (concat s2) l2 false true psi_neg (Z.of_nat d)
+      ((l1 + 1) * W) (c_parts_ldiff l1 l2) (c_parts_ldiffr l1 l2 (c_parts_ldiff l1 l2))
+      (c_parts_ldiffc l1 l2 (c_parts_ldiff l1 l2)) (c_parts_window l1 l2 window) W ((l1 + 1) * W)
+      (c_parts_ri1 l1 (c_parts_overlap_left l1 (c_parts_ldiffr l1 l2 (c_parts_ldiff l1 l2)) (c_parts_window l1 l2 window))
+                      (c_parts_overlap_right l1 (c_parts_ldiffr l1 l2 (c_parts_ldiff l1 l2)) (c_parts_window l1 l2 window)))
+      (c_parts_ri2 l1 (c_parts_overlap_left l1 (c_parts_ldiffr l1 l2 (c_parts_ldiff l1 l2)) (c_parts_window l1 l2 window)))
+      (c_parts_ri3 l1 (c_parts_overlap_left l1 (c_parts_ldiffr l1 l2 (c_parts_ldiff l1 l2)) (c_parts_window l1 l2 window))
+                      (c_parts_overlap_right l1 (c_parts_ldiffr l1 l2 (c_parts_ldiff l1 l2)) (c_parts_window l1 l2 window)))
+      (adj_max_step usq) Inf (Fin (adj_penalty usq)) idist false (Z.of_nat (psi_1b usq)) zp1e (Z.of_nat (psi_2b usq)) zp2e false
+    = (RPlain (Fin (-1)), wps', true) /\
+    forall fuel i j, (i + j <= fuel)%nat -> Z.of_nat i <= l1 -> Z.of_nat j <= l2 -> Mfun usq s1 s2 i j <> Inf ->
+      wpath_cost usq s1 s2 i j
+        (c_trace l1 l2 window (adj_penalty usq) (fun row s => aget wps' (row * W + s)) fuel i j
+                 (Z.of_nat j - cw_shift l1 l2 window (Z.of_nat i - 1)))
+      = Some (Mfun usq s1 s2 i j).
+Proof.
+  intros W HL Hid.
+  destruct (c_wps_kernel_fills_the_matrix l1 l2 window ltac:(lia) ltac:(lia) Hwin (cell usq s1 s2) (adj_penalty usq)
+              (psi_1b usq) (psi_2b usq) cell_outside_band (Z.of_nat d) (concat s1) (concat s2) (adj_max_step usq)
+              cell_on_band ltac:(lia) ltac:(lia) ce0 shiftf ced1 ced2 wps0 psi_neg idist zp1e zp2e HL Hid)
+    as (wps' & E & HLen & Hrows).
+  exists wps'. split; [exact E|]. intros fuel i j Hf Hi Hj Hfin.
+  pose proof (c_loop_path_cost_for_dtw usq s1 s2 (fun row s => aget wps' (row * W + s))) as HT.
+  cbv zeta in HT. rewrite c_window_arg_usq in HT. unfold sr, sc in HT.
+  apply HT; try assumption; try lia; try reflexivity; try exact usq_window_ok.
+  intros i' s Hi' Hs Hcol Hb. exact (Hrows i' ltac:(lia) s Hs ltac:(lia) Hb).
+Qed.
+
 (* ------------------------------------------------------------------ under a bound *)
 (* run for its value with p.max_dist = B (max_dist in the internal representation; or the Euclidean upper bound, see
    c_wps_use_pruning_is_a_bound): the value returned is `v <= B ? v : inf` for the DTW value v of the specification, and
